@@ -147,14 +147,8 @@ func (b *recBatch) Delete(k []byte) error {
 func (b *recBatch) ValueSize() int { return b.size }
 func (b *recBatch) Reset()         { b.ops = b.ops[:0]; b.size = 0 }
 func (b *recBatch) Write() error {
-	if len(b.ops) > 0 || b.db.FailAt > 0 {
-		if !b.db.admit(Rec{true, append([]KV(nil), b.ops...)}) {
-			return ErrInjected
-		}
-	} else {
-		b.db.mu.Lock()
-		b.db.Log = append(b.db.Log, Rec{true, nil})
-		b.db.mu.Unlock()
+	if !b.db.admit(Rec{true, append([]KV(nil), b.ops...)}) {
+		return ErrInjected
 	}
 	ib := b.db.Inner.NewBatch()
 	for _, o := range b.ops {
